@@ -65,6 +65,10 @@ func customRoutes(cfg *config.Custom, ch chan string) {
 			continue
 		}
 		log.Printf("[DEBUG] Custom Registry begin decoding json %s \n", time.Now())
+		// decode into a fresh value: decoding into the routes of the previous
+		// poll keeps their tags, options and weights for every field the new
+		// document omits
+		Routes = nil
 		decoder := json.NewDecoder(resp.Body)
 		err = decoder.Decode(&Routes)
 		if err != nil {
